@@ -1278,7 +1278,21 @@ func runR45(c *Ctx) {
 		var out []*ssa.BasicBlock
 		eachInstr(fn, func(in ssa.Instruction) {
 			if call, ok := in.(*ssa.Call); ok {
+				isStage := false
 				if o := calleeObj(call); o != nil && o.Name() == name && o.Pkg() != nil && (o.Pkg().Path() == rel("internal/strings") || o.Pkg().Path() == "strconv") {
+					isStage = true
+				}
+				// ... or a helper of the same package that performs the conversion (an extracted parseIntColumn)
+				if callee := call.Call.StaticCallee(); !isStage && callee != nil && callee.Pkg == fn.Pkg && callee.Blocks != nil {
+					eachInstr(callee, func(i2 ssa.Instruction) {
+						if c2, ok := i2.(*ssa.Call); ok {
+							if o := calleeObj(c2); o != nil && o.Name() == name && o.Pkg() != nil && (o.Pkg().Path() == rel("internal/strings") || o.Pkg().Path() == "strconv") {
+								isStage = true
+							}
+						}
+					})
+				}
+				if isStage {
 					// the stage is "attempted" when its conversion loop is entered (it may run zero times)
 					blk := in.Block()
 					for _, li := range loops45 {
